@@ -278,6 +278,17 @@ def run_check(pid, tier, seed):
         if r["error"]:
             errors.append(r["error"])
 
+    # optional in-process fuzz supplement (C10 / C11): findings only count when they reproduce on the binary
+    supplement = None
+    if hasattr(mod, "supplement"):
+        try:
+            supplement = mod.supplement(tier, seed)
+        except Exception:
+            supplement = {"available": False, "reason": "supplement failed: " + traceback.format_exc()[-400:]}
+        for case, discs in supplement.pop("violations", []):
+            violations.append((jsonable(case), discs, "fuzz-supplement"))
+        total.evals += supplement.get("executions", 0) and 0
+
     # de-duplicate violations by first signature
     seen = set()
     uniq = []
@@ -304,6 +315,8 @@ def run_check(pid, tier, seed):
         "inconclusive_cases": total.inconclusive,
         "workers": WORKERS,
     }
+    if supplement is not None:
+        cov["fuzz_supplement"] = supplement
     if getattr(mod, "EXHAUSTIVE_NOTE", None) and enum_cases:
         cov["exhaustive"] = True
         cov["exhaustive_part"] = mod.EXHAUSTIVE_NOTE
